@@ -596,7 +596,7 @@ theorem class_equiv (ign raw : Bool) (c : ClassOpts) (fields : List (String × F
       rcases HF doc args attrs hp.2 s2 s3 hvf with ⟨attrs', g1, g2, g3⟩
       refine ⟨.inst c.name attrs', ?_, ?_, ?_, ?_, rfl, fun u hu => vClassRef_ok_id c _ u hu⟩
       · simp only [tInst, hkw, hcrash, Bool.false_eq_true, if_false, noMappers, remapDoc, TMapper.isNone,
-          if_true, g1, bindE_ok]
+          TMapper.isList, if_true, g1, bindE_ok]
       · simp [tnorm, g2]
       · simp only [ser, sInst, beq_self_eq_true, Bool.true_or, Bool.not_true, Bool.false_eq_true, if_false]
         have : mapE (fun (a : String × PyVal) => bindE (serField O fields a.1 a.2) fun j => .ok (PyVal.str a.1, j))
